@@ -45,6 +45,10 @@ func vfC07GenCfg(rt *rapid.T) *vfxCfg {
 		c.Pools = []vfxPoolCfg{main, cand}
 	}
 	c.ByHostName = rapid.IntRange(0, 3).Draw(rt, "by-hostname") == 0
+	// the route cache must not change any limit; proxy compression must not turn a short or
+	// oversized backend body into a success
+	c.CacheSize = rapid.SampledFrom([]uint32{0, 2, 2, 1000, 1000}).Draw(rt, "route-cacheSize")
+	c.Compression = rapid.SampledFrom([]int{-1, -1, -1, 0, 10}).Draw(rt, "compression-minLength")
 	return c
 }
 
@@ -83,6 +87,8 @@ type vfC07Case struct {
 	Chunks   []int
 	Split    int
 	Status   int
+	AcceptEn string // client Accept-Encoding ("" = none)
+	Reps     int    // the same request (same route-cache key) is sent this many times
 }
 
 func vfC07GenCase(rt *rapid.T, c *vfxCfg, thorough bool) (k vfC07Case, eff int64, inherited bool) {
@@ -108,6 +114,12 @@ func vfC07GenCase(rt *rapid.T, c *vfxCfg, thorough bool) (k vfC07Case, eff int64
 		k.Status = rapid.SampledFrom([]int{200, 200, 203, 404, 503}).Draw(rt, "status")
 	}
 	k.Size = vfC07GenSize(rt, eff, k.Dir, thorough)
+	k.Reps = rapid.SampledFrom([]int{1, 2, 2, 3}).Draw(rt, "repetitions")
+	if k.Dir == "resp" {
+		k.AcceptEn = rapid.SampledFrom([]string{"", "gzip", "identity"}).Draw(rt, "accept-encoding")
+	} else if c.Compression >= 0 {
+		k.AcceptEn = "identity" // keeps the (empty) response of request-direction cases out of the compressor
+	}
 	if k.Encoding == "chunked" {
 		n := rapid.IntRange(0, 3).Draw(rt, "nchunks")
 		for i := 0; i < n; i++ {
@@ -129,13 +141,18 @@ func TestVerifC07Limits(t *testing.T) {
 			rt.Fatalf("VF-INCONCLUSIVE cannot build the rig (configuration rejected by the acceptance path, or no listener): %v", err)
 		}
 		defer rig.Close()
-		nreq := rapid.IntRange(1, 6).Draw(rt, "nreq")
+		nreq := rapid.IntRange(1, 5).Draw(rt, "nreq")
 		for i := 0; i < nreq; i++ {
 			k, eff, inherited := vfC07GenCase(rt, cfg, thorough)
 			body := vfxBody(k.Seed, k.Size, int(k.Seed)&1)
+			// same host + method + path = same route-cache key for every request of the case that
+			// goes to this path with this method (the query is not part of the key)
 			q := &vfxRequest{Method: k.Method, Target: fmt.Sprintf("/p%d/x?i=%d", k.PathIdx, i), Host: "c07.vf.test", Framing: "none"}
 			if k.Pool != "" {
 				q.Headers = append(q.Headers, [2]string{"X-Vf-Pool", k.Pool})
+			}
+			if k.AcceptEn != "" {
+				q.Headers = append(q.Headers, [2]string{"Accept-Encoding", k.AcceptEn})
 			}
 			sc := &vfxScript{Status: k.Status, Framing: "cl", Headers: [][2]string{{"X-Vf-R", "1"}}}
 			if k.Dir == "req" {
@@ -146,165 +163,193 @@ func TestVerifC07Limits(t *testing.T) {
 			} else {
 				sc.Body, sc.Framing, sc.Split, sc.LieExtra = body, k.Encoding, k.Split, k.LieExtra
 			}
-			resp, seen, frontLog, transient, err := rig.exchange(q, sc)
-			if err != nil {
-				if err == errVfxTimeout {
-					rt.Fatalf("VF-INCONCLUSIVE no complete response within %v for %s", vfxIOTimeout, q)
-				}
-				rt.Fatalf("VF-INCONCLUSIVE client I/O problem: %v", err)
-			}
-			if transient {
-				vf.Class("transient-503-without-backend-contact-retried")
-			}
-
-			declared := int64(k.Size)
-			if k.Encoding == "lying" {
-				declared += int64(k.LieExtra)
-			}
-			over := eff >= 0 && int64(k.Size) > eff
-			declaredOver := eff >= 0 && declared > eff
-			near := eff >= 0 && int64(k.Size) >= eff-1 && int64(k.Size) <= eff+1
-			nontrivial := near || inherited || k.Encoding == "chunked"
-			effName := fmt.Sprint(eff)
-			if eff == vfC07Default {
-				effName = "default-4MiB"
-			}
-			vf.Class("dir="+k.Dir, k.Dir+"-encoding="+k.Encoding, k.Dir+"-eff="+effName, fmt.Sprintf("client-status=%d", resp.Status))
-			for n, on := range map[string]bool{k.Dir + "-size=limit": eff >= 0 && int64(k.Size) == eff, k.Dir + "-size=limit+1": eff >= 0 && int64(k.Size) == eff+1,
-				k.Dir + "-size=limit-1": eff > 0 && int64(k.Size) == eff-1, k.Dir + "-size>>limit": eff >= 0 && int64(k.Size) > eff+1, k.Dir + "-inherited": inherited,
-				k.Dir + "-over": over, k.Dir + "-stream": eff < 0, k.Dir + "-inner-overrides-outer": !inherited && ((k.Dir == "req" && cfg.ServerClientMax != 0) || (k.Dir == "resp" && cfg.ProxyServerMax != 0)),
-				"candidate-pool": k.Pool != "", "size>4MiB": k.Size > vfC07Default} {
-				if on {
-					vf.Class(n)
-				}
-			}
-			desc := fmt.Sprintf("cfg{%s}\ncase{%+v effective-limit=%d inherited=%v}\nrequest{%s}", strings.ReplaceAll(rig.pipeYAML+rig.srvYAML, "\n", "; "), k, eff, inherited, q)
-			vf.Case(nontrivial, fmt.Sprintf("%+v|%+v", *cfg, k), func() interface{} {
-				return map[string]interface{}{"case": desc, "backend_contacts": len(seen), "client_received": resp.String()}
-			})
-			fail := func(key, format string, a ...interface{}) bool {
-				if ps := vfxPanicSite(frontLog); ps != "" {
-					key = "handler-panic " + ps
-				}
-				if len(frontLog) > 3000 {
-					frontLog = frontLog[:3000] + "…"
-				}
-				return vf.Violation(rt, key, "%s\n%s\nbackend received: %v\nclient received: %s\nfront server log: %s", fmt.Sprintf(format, a...), desc, seen, resp, frontLog)
-			}
-			noResponse := resp.Status == 0
-
-			if k.Dir == "req" {
-				switch {
-				case k.Encoding == "lying":
-					// fewer bytes than declared, then the client half-closes
-					if declaredOver {
-						vf.Class("ambiguous-declared-over-limit-but-short")
-					}
-					if !noResponse && resp.Status < 400 {
-						if fail("req-short-declared-body-success", "request declared %d body bytes, sent %d and closed: client got %d, not an error status", declared, k.Size, resp.Status) {
-							rig.dropConn()
-							continue
-						}
-					}
-					if declaredOver && len(seen) != 0 {
-						if fail("req-over-limit-reached-backend", "declared length %d exceeds the effective clientMaxBodySize %d but the backend was contacted %d times", declared, eff, len(seen)) {
-							rig.dropConn()
-							continue
-						}
-					}
-					for _, s := range seen {
-						if s.BodyErr == nil {
-							if fail("req-short-declared-body-forwarded-as-complete", "request declared %d body bytes, sent %d and closed, yet the backend read a complete body of %d bytes", declared, k.Size, len(s.Body)) {
-								break
-							}
-						}
-					}
-				case over:
-					if resp.Status != 413 {
-						if fail("req-over-limit-not-413", "request body of %d bytes (%s) exceeds the effective clientMaxBodySize %d: client got %d, want 413", k.Size, k.Encoding, eff, resp.Status) {
-							rig.dropConn()
-							continue
-						}
-					}
-					if len(seen) != 0 {
-						if fail("req-over-limit-reached-backend", "request body of %d bytes (%s) exceeds the effective clientMaxBodySize %d but the backend was contacted %d times", k.Size, k.Encoding, eff, len(seen)) {
-							rig.dropConn()
-							continue
-						}
-					}
-				default:
-					if len(seen) == 0 || resp.Status != k.Status {
-						key := "req-within-limit-rejected"
-						if eff < 0 {
-							key = "req-stream-rejected"
-						}
-						if fail(key, "request body of %d bytes (%s) is within the effective clientMaxBodySize %d: backend contacts %d, client got %d (backend answers %d)", k.Size, k.Encoding, eff, len(seen), resp.Status, k.Status) {
-							rig.dropConn()
-							continue
-						}
-					}
-					s := seen[len(seen)-1]
-					if s.BodyErr != nil || !bytes.Equal(s.Body, body) {
-						if fail("req-body-altered", "request body of %d bytes (%s) within the limit %d reached the backend as %s (read error %v), sent %s", k.Size, k.Encoding, eff, vfxBrief(s.Body), s.BodyErr, vfxBrief(body)) {
-							rig.dropConn()
-							continue
-						}
-					}
-				}
-				continue
-			}
-
-			// response direction
-			deliveredSome := len(resp.Body) > 0 && len(body) > 0 && bytes.HasPrefix(body, resp.Body)
-			switch {
-			case k.Encoding == "lying":
-				if declaredOver {
-					vf.Class("ambiguous-declared-over-limit-but-short")
-				}
-				if noResponse || resp.Status >= 400 {
-					break
-				}
-				if eff < 0 && resp.FramingErr != "" && resp.Status == k.Status {
-					// streamed: the status line was gone before the backend broke its promise; the
-					// client can tell from the framing that the body is incomplete
-					vf.Class("ambiguous-stream-short-body-detectable-abort")
-					break
-				}
-				if fail("resp-short-declared-body-success", "backend declared %d body bytes, sent %d and closed: client got a well-framed %d with %s", declared, k.Size, resp.Status, vfxBrief(resp.Body)) {
+			for rep := 0; rep < k.Reps; rep++ {
+				if !vfC07Judge(rt, vf, rig, cfg, k, eff, inherited, rep, q, sc, body) {
 					rig.dropConn()
-					continue
-				}
-			case over:
-				if resp.Status < 500 || resp.Status > 599 {
-					if fail("resp-over-limit-not-5xx", "backend body of %d bytes (%s) exceeds the effective serverMaxBodySize %d: client got %d, want 5xx", k.Size, k.Encoding, eff, resp.Status) {
-						rig.dropConn()
-						continue
-					}
-				}
-				if deliveredSome {
-					if fail("resp-over-limit-body-delivered", "backend body of %d bytes (%s) exceeds the effective serverMaxBodySize %d but %d of its bytes were delivered", k.Size, k.Encoding, eff, len(resp.Body)) {
-						rig.dropConn()
-						continue
-					}
-				}
-			default:
-				if resp.Status != k.Status {
-					key := "resp-within-limit-not-delivered"
-					if eff < 0 {
-						key = "resp-stream-not-delivered"
-					}
-					if fail(key, "backend body of %d bytes (%s) is within the effective serverMaxBodySize %d: client got %d, backend answered %d", k.Size, k.Encoding, eff, resp.Status, k.Status) {
-						rig.dropConn()
-						continue
-					}
-				}
-				if resp.FramingErr != "" || !bytes.Equal(resp.Body, body) {
-					if fail("resp-body-altered", "backend body of %d bytes (%s) within the limit %d arrived as %s (framing: %q)", k.Size, k.Encoding, eff, vfxBrief(resp.Body), resp.FramingErr) {
-						rig.dropConn()
-						continue
-					}
 				}
 			}
 		}
 	})
+}
+
+// vfC07Judge sends one request and applies the statement's table. It returns false when a listed
+// known finding was hit (the exchange is abandoned).
+func vfC07Judge(rt *rapid.T, vf *vfCollector, rig *vfxRig, cfg *vfxCfg, k vfC07Case, eff int64, inherited bool, rep int, q *vfxRequest, sc *vfxScript, body []byte) bool {
+	resp, seen, frontLog, transient, err := rig.exchange(q, sc)
+	if err != nil {
+		if err == errVfxTimeout {
+			rt.Fatalf("VF-INCONCLUSIVE no complete response within %v for %s", vfxIOTimeout, q)
+		}
+		rt.Fatalf("VF-INCONCLUSIVE client I/O problem: %v", err)
+	}
+	if transient {
+		vf.Class("transient-503-without-backend-contact-retried")
+	}
+
+	declared := int64(k.Size)
+	if k.Encoding == "lying" {
+		declared += int64(k.LieExtra)
+	}
+	over := eff >= 0 && int64(k.Size) > eff
+	declaredOver := eff >= 0 && declared > eff
+	near := eff >= 0 && int64(k.Size) >= eff-1 && int64(k.Size) <= eff+1
+	nontrivial := near || inherited || k.Encoding == "chunked"
+	effName := fmt.Sprint(eff)
+	if eff == vfC07Default {
+		effName = "default-4MiB"
+	}
+	// proxy compression applies (documented rule): client accepts gzip, declared length unknown or >= minLength
+	lengthKnown := declared
+	if k.Encoding == "chunked" {
+		lengthKnown = -1
+	}
+	compressed := k.Dir == "resp" && cfg.Compression >= 0 && (k.AcceptEn == "" || k.AcceptEn == "gzip") &&
+		(lengthKnown == -1 || lengthKnown >= int64(cfg.Compression))
+	vf.Class("dir="+k.Dir, k.Dir+"-encoding="+k.Encoding, k.Dir+"-eff="+effName, fmt.Sprintf("client-status=%d", resp.Status), fmt.Sprintf("route-cacheSize=%d", cfg.CacheSize))
+	for n, on := range map[string]bool{k.Dir + "-size=limit": eff >= 0 && int64(k.Size) == eff, k.Dir + "-size=limit+1": eff >= 0 && int64(k.Size) == eff+1,
+		k.Dir + "-size=limit-1": eff > 0 && int64(k.Size) == eff-1, k.Dir + "-size>>limit": eff >= 0 && int64(k.Size) > eff+1, k.Dir + "-inherited": inherited,
+		k.Dir + "-over": over, k.Dir + "-stream": eff < 0, k.Dir + "-inner-overrides-outer": !inherited && ((k.Dir == "req" && cfg.ServerClientMax != 0) || (k.Dir == "resp" && cfg.ProxyServerMax != 0)),
+		"candidate-pool": k.Pool != "", "size>4MiB": k.Size > vfC07Default, "repeated-route-key": rep > 0, "repeated-route-key-cache-on": rep > 0 && cfg.CacheSize > 0,
+		"repeated-over-limit-request-cache-on": rep > 0 && cfg.CacheSize > 0 && k.Dir == "req" && over, "repeated-stream-request-cache-on": rep > 0 && cfg.CacheSize > 0 && k.Dir == "req" && eff < 0,
+		"resp-compressed": compressed, "resp-compressed-lying": compressed && k.Encoding == "lying", "resp-compressed-over": compressed && over} {
+		if on {
+			vf.Class(n)
+		}
+	}
+	desc := fmt.Sprintf("cfg{%s}\ncase{%+v effective-limit=%d inherited=%v repetition=%d}\nrequest{%s}", strings.ReplaceAll(rig.pipeYAML+rig.srvYAML, "\n", "; "), k, eff, inherited, rep, q)
+	vf.Case(nontrivial, fmt.Sprintf("%+v|%+v|%d", *cfg, k, rep), func() interface{} {
+		return map[string]interface{}{"case": desc, "backend_contacts": len(seen), "client_received": resp.String()}
+	})
+	fail := func(key, format string, a ...interface{}) bool {
+		if ps := vfxPanicSite(frontLog); ps != "" {
+			key = "handler-panic " + ps
+		}
+		if len(frontLog) > 3000 {
+			frontLog = frontLog[:3000] + "…"
+		}
+		return !vf.Violation(rt, key, "%s\n%s\nbackend received: %v\nclient received: %s\nfront server log: %s", fmt.Sprintf(format, a...), desc, seen, resp, frontLog)
+	}
+	noResponse := resp.Status == 0
+
+	if k.Dir == "req" {
+		switch {
+		case k.Encoding == "lying":
+			// fewer bytes than declared, then the client half-closes
+			if declaredOver {
+				vf.Class("ambiguous-declared-over-limit-but-short")
+			}
+			if !noResponse && resp.Status < 400 {
+				return fail("req-short-declared-body-success", "request declared %d body bytes, sent %d and closed: client got %d, not an error status", declared, k.Size, resp.Status)
+			}
+			if declaredOver && len(seen) != 0 {
+				return fail("req-over-limit-reached-backend", "declared length %d exceeds the effective clientMaxBodySize %d but the backend was contacted %d times", declared, eff, len(seen))
+			}
+			for _, s := range seen {
+				if s.BodyErr == nil {
+					return fail("req-short-declared-body-forwarded-as-complete", "request declared %d body bytes, sent %d and closed, yet the backend read a complete body of %d bytes", declared, k.Size, len(s.Body))
+				}
+			}
+		case over:
+			if resp.Status != 413 {
+				return fail("req-over-limit-not-413", "request body of %d bytes (%s) exceeds the effective clientMaxBodySize %d: client got %d, want 413", k.Size, k.Encoding, eff, resp.Status)
+			}
+			if len(seen) != 0 {
+				return fail("req-over-limit-reached-backend", "request body of %d bytes (%s) exceeds the effective clientMaxBodySize %d but the backend was contacted %d times", k.Size, k.Encoding, eff, len(seen))
+			}
+		default:
+			if len(seen) == 0 || resp.Status != k.Status {
+				key := "req-within-limit-rejected"
+				if eff < 0 {
+					key = "req-stream-rejected"
+				}
+				return fail(key, "request body of %d bytes (%s) is within the effective clientMaxBodySize %d: backend contacts %d, client got %d (backend answers %d)", k.Size, k.Encoding, eff, len(seen), resp.Status, k.Status)
+			}
+			s := seen[len(seen)-1]
+			if s.BodyErr != nil || !bytes.Equal(s.Body, body) {
+				return fail("req-body-altered", "request body of %d bytes (%s) within the limit %d reached the backend as %s (read error %v), sent %s", k.Size, k.Encoding, eff, vfxBrief(s.Body), s.BodyErr, vfxBrief(body))
+			}
+		}
+		return true
+	}
+
+	// response direction. The payload the client holds after undoing the Content-Encoding the
+	// response is labelled with:
+	got, decodeErr := resp.Body, error(nil)
+	ce := resp.Get("Content-Encoding")
+	labelledGzip := len(ce) == 1 && strings.EqualFold(ce[0], "gzip")
+	if labelledGzip { // an empty body is not a gzip stream either
+		got, decodeErr = vfxGunzip(resp.Body)
+	}
+	if len(ce) > 0 && !compressed {
+		return fail("resp-unexpected-content-encoding", "response labelled Content-Encoding %q although proxy compression does not apply", ce)
+	}
+	deliveredSome := len(body) > 0 && ((len(resp.Body) > 0 && bytes.HasPrefix(body, resp.Body)) || (labelledGzip && len(got) > 0 && bytes.HasPrefix(body, got)))
+	exact := resp.FramingErr == "" && decodeErr == nil && bytes.Equal(got, body)
+	is5xx := resp.Status >= 500 && resp.Status <= 599
+	switch {
+	case k.Encoding == "lying":
+		if declaredOver {
+			vf.Class("ambiguous-declared-over-limit-but-short")
+		}
+		if noResponse || resp.Status >= 400 {
+			break
+		}
+		if eff < 0 && resp.Status == k.Status && (resp.FramingErr != "" || (labelledGzip && decodeErr != nil)) {
+			// streamed: the status line was gone before the backend broke its promise; the
+			// client can tell from the framing (or from the unfinished gzip stream) that the body
+			// is incomplete
+			vf.Class("ambiguous-stream-short-body-detectable-abort")
+			break
+		}
+		return fail("resp-short-declared-body-success", "backend declared %d body bytes, sent %d and closed: client got a well-framed %d with %s (Content-Encoding %q, decodes: %v)", declared, k.Size, resp.Status, vfxBrief(resp.Body), ce, decodeErr)
+	case compressed && eff >= 0:
+		// the statement does not say whether the limit is meant for the backend's bytes or for the
+		// compressed bytes the proxy holds: strict only where both readings agree (with a margin
+		// for the exact size of the gzip stream)
+		comp := int64(len(vfxGzip(body)))
+		lo, hi := int64(k.Size), comp
+		if lo > hi {
+			lo, hi = hi, lo
+		}
+		switch {
+		case lo > eff+64:
+			if !is5xx {
+				return fail("resp-over-limit-not-5xx", "backend body of %d bytes (%s, %d compressed) exceeds the effective serverMaxBodySize %d: client got %d, want 5xx", k.Size, k.Encoding, comp, eff, resp.Status)
+			}
+			if deliveredSome {
+				return fail("resp-over-limit-body-delivered", "backend body of %d bytes (%s) exceeds the effective serverMaxBodySize %d but %d of its bytes were delivered", k.Size, k.Encoding, eff, len(got))
+			}
+		case hi <= eff-64:
+			if resp.Status != k.Status {
+				return fail("resp-within-limit-not-delivered", "backend body of %d bytes (%s, %d compressed) is within the effective serverMaxBodySize %d: client got %d, backend answered %d", k.Size, k.Encoding, comp, eff, resp.Status, k.Status)
+			}
+			if !exact {
+				return fail("resp-body-altered", "backend body of %d bytes (%s) within the limit %d arrived as %s (framing: %q, Content-Encoding %q, decodes: %v)", k.Size, k.Encoding, eff, vfxBrief(got), resp.FramingErr, ce, decodeErr)
+			}
+		default:
+			vf.Class("ambiguous-limit-on-compressed-or-original-size")
+			if !(is5xx && !deliveredSome) && !(resp.Status == k.Status && exact) {
+				return fail("resp-neither-withheld-nor-intact", "backend body of %d bytes (%s, %d compressed), effective serverMaxBodySize %d: client got %d with %s (framing: %q, decodes: %v): neither a 5xx without the body nor the intact body", k.Size, k.Encoding, comp, eff, resp.Status, vfxBrief(got), resp.FramingErr, decodeErr)
+			}
+		}
+	case over:
+		if !is5xx {
+			return fail("resp-over-limit-not-5xx", "backend body of %d bytes (%s) exceeds the effective serverMaxBodySize %d: client got %d, want 5xx", k.Size, k.Encoding, eff, resp.Status)
+		}
+		if deliveredSome {
+			return fail("resp-over-limit-body-delivered", "backend body of %d bytes (%s) exceeds the effective serverMaxBodySize %d but %d of its bytes were delivered", k.Size, k.Encoding, eff, len(resp.Body))
+		}
+	default:
+		if resp.Status != k.Status {
+			key := "resp-within-limit-not-delivered"
+			if eff < 0 {
+				key = "resp-stream-not-delivered"
+			}
+			return fail(key, "backend body of %d bytes (%s) is within the effective serverMaxBodySize %d: client got %d, backend answered %d", k.Size, k.Encoding, eff, resp.Status, k.Status)
+		}
+		if !exact {
+			return fail("resp-body-altered", "backend body of %d bytes (%s) within the limit %d arrived as %s (framing: %q, Content-Encoding %q, decodes: %v)", k.Size, k.Encoding, eff, vfxBrief(got), resp.FramingErr, ce, decodeErr)
+		}
+	}
+	return true
 }
